@@ -22,7 +22,36 @@ mod m_db;
 mod m_dl;
 mod m_filter;
 
+/// A subscriber that is interested in everything and keeps nothing: with it installed the arguments of every `trace!` / `debug!` /
+/// `info!` in the code under test are evaluated, as they are in an application that logs (a panic in a log statement is a panic).
+struct EverythingEnabled;
+impl tracing::Subscriber for EverythingEnabled {
+    fn enabled(&self, _: &tracing::Metadata<'_>) -> bool {
+        true
+    }
+    fn new_span(&self, _: &tracing::span::Attributes<'_>) -> tracing::span::Id {
+        tracing::span::Id::from_u64(1)
+    }
+    fn record(&self, _: &tracing::span::Id, _: &tracing::span::Record<'_>) {}
+    fn record_follows_from(&self, _: &tracing::span::Id, _: &tracing::span::Id) {}
+    fn event(&self, e: &tracing::Event<'_>) {
+        // format the message like a logger would (Display / Debug of the fields run)
+        struct V;
+        impl tracing::field::Visit for V {
+            fn record_debug(&mut self, _: &tracing::field::Field, v: &dyn std::fmt::Debug) {
+                let _ = std::hint::black_box(format!("{v:?}").len());
+            }
+        }
+        e.record(&mut V);
+    }
+    fn enter(&self, _: &tracing::span::Id) {}
+    fn exit(&self, _: &tracing::span::Id) {}
+}
+
 fn main() {
+    if std::env::var("HV_NO_LOG").is_err() {
+        let _ = tracing::subscriber::set_global_default(EverythingEnabled);
+    }
     let args: Vec<String> = std::env::args().collect();
     if args.len() < 2 {
         eprintln!("usage: hv <mode> [args] < in.ndjson > out.ndjson");
